@@ -143,14 +143,27 @@ void prop(const Case& cs) {
   if (img.size() > 20000) { vf::label("image-too-large-skipped"); return; }
   // fault list
   std::vector<Fault> faults;
+  uint64_t excluded_large_config = 0;
   for (int path = 0; path < (has_wrap ? 3 : 2); ++path) for (size_t L = 0; L < img.size(); ++L) faults.push_back(Fault{path, 0, L, 0});
   size_t pre = preamble_len(f, img);
   for (int path = 0; path < 2; ++path) for (size_t p = 0; p < pre; ++p) {
     uint8_t b = img[p];
     uint8_t reps[] = {0x00, 0xFF, static_cast<uint8_t>(b ^ 1), static_cast<uint8_t>(b ^ 0x80), static_cast<uint8_t>(b + 1), static_cast<uint8_t>(b - 1)};
     std::set<uint8_t> seen;
-    for (uint8_t v : reps) if (v != b && seen.insert(v).second) faults.push_back(Fault{path, 1, p, v});
+    for (uint8_t v : reps) if (v != b && seen.insert(v).second) {
+      // Excluded by construction (counted): a changed configuration field that turns the image into a VALID image of a
+      // legitimately huge sketch - the library is documented to allocate such a sketch (count-min: up to 2^30 counters;
+      // density: any dimension), so the allocation is not "unbounded" in the sense of the property, and executing it
+      // would only exhaust the sandbox. Only images that stay self-consistent are excluded (empty images).
+      fam::Bytes m = img; m[p] = v;
+      bool empty_image = img.size() <= 16;
+      if (f == fam::F_CM && empty_image && m.size() >= 13 && static_cast<uint64_t>(vf::ref_le32(m.data() + 8)) * m[12] * 8 > (48ull << 20)) { ++excluded_large_config; continue; }
+      if ((f == fam::F_VO_I || f == fam::F_VO_S || f == fam::F_VOU || f == fam::F_EBPPS) && img.size() <= 8 && m.size() >= 8 && vf::ref_le32(m.data() + 4) > 65536) { ++excluded_large_config; continue; }  // empty image, k field
+      if (f == fam::F_DENS && empty_image && m.size() >= 12 && vf::ref_le32(m.data() + 8) > 4096) { ++excluded_large_config; continue; }
+      faults.push_back(Fault{path, 1, p, v});
+    }
   }
+  vf::count("excluded:valid-image-of-a-huge-configuration", excluded_large_config);
   static Shared* sh = static_cast<Shared*>(mmap(nullptr, sizeof(Shared), PROT_READ | PROT_WRITE, MAP_SHARED | MAP_ANONYMOUS, -1, 0));
   std::memset(const_cast<uint64_t*>(&sh->next), 0, sizeof(Shared));
   std::string errfile = vf::env("VF_OUT", "/tmp") + "/c11.child." + vf::env("VF_WORKER", "0") + ".err";
